@@ -3,7 +3,7 @@ import SwhVerif.Lemmas.MerkleInv
 # Merkle cache: `update_hash`, `compute_hash`, `entries`, `to_model` (C10/C14 helper lemmas, part 3)
 -/
 namespace Swh.Merkle
-variable {H : Type} {hashFn : Data → List (Name × H) → H}
+variable {H : Type} {hashFn : Data → List (EntryV H) → H}
 
 /-- a node that is still marked collected kept its hash -/
 def CollStable (h h' : Heap H) : Prop :=
@@ -39,7 +39,7 @@ theorem RankOK.of_same {h h' : Heap H} {rank : Id → Nat} (s : SameStruct h h')
 
 /-- what `compute_hash` needs from `child.hash`: invariant kept, caches only grow, the child ends
 cached with the returned value -/
-def UpdOK (hashFn : Data → List (Name × H) → H) (upd : Heap H → Id → Heap H × H) (h0 : Heap H)
+def UpdOK (hashFn : Data → List (EntryV H) → H) (upd : Heap H → Id → Heap H × H) (h0 : Heap H)
     (c : Id) : Prop :=
   ∀ g, Inv hashFn g → SameStruct h0 g →
     Inv hashFn (upd g c).1 ∧ Grows g (upd g c).1 ∧ ((upd g c).1.get c).cache = some (upd g c).2
@@ -161,7 +161,7 @@ theorem computeHash_spec (upd : Heap H → Id → Heap H × H) (h0 g : Heap H) (
       rw [s1.isDir, hd, s1.children]; rfl
 
 /-- what every `update_hash` call guarantees -/
-structure Good (hashFn : Data → List (Name × H) → H) (force : Bool) (h g : Heap H) : Prop where
+structure Good (hashFn : Data → List (EntryV H) → H) (force : Bool) (h g : Heap H) : Prop where
   inv : Inv hashFn g
   same : SameStruct h g
   coll : KInv h → CollStable h g
